@@ -217,8 +217,22 @@ func termsConcrete(ts []*Term) ([]byte, bool) {
 // (the "no 64-bit collision" assumption of the properties, listed in the evidence).
 func (m *Machine) hashBytes(ts []*Term) Value {
 	b, conc := termsConcrete(ts)
-	if conc && !m.absHash {
-		return K(64, xxhash.Sum64(b))
+	if conc && (!m.absHash || (m.absHashPrefix != "" && !strings.HasPrefix(string(b), m.absHashPrefix))) {
+		r := K(64, xxhash.Sum64(b))
+		if m.absHash {
+			// abstract hashes must not collide with the real hashes of other byte strings either
+			key := "c:" + string(b)
+			if _, ok := m.hashVars[key]; !ok {
+				m.hashVars[key] = r
+				for _, prev := range m.hashApps {
+					if !prev.res.IsConst() {
+						m.assertPC(BNot(Cmp(OpEq, prev.res, r)))
+					}
+				}
+				m.hashApps = append(m.hashApps, hashApp{bytes: ts, res: r})
+			}
+		}
+		return r
 	}
 	if conc {
 		key := string(b)
@@ -480,6 +494,11 @@ func (p *Program) installVerif() {
 	}
 	v["verifAbstractHash"] = func(fr *frame, a []Value) Value {
 		fr.m.absHash = a[0].(*Term).val == 1
+		return nil
+	}
+	v["verifAbstractHashFor"] = func(fr *frame, a []Value) Value {
+		fr.m.absHash = true
+		fr.m.absHashPrefix = nameOf(a[0])
 		return nil
 	}
 	v["verifSchedule"] = func(fr *frame, a []Value) Value {
